@@ -858,6 +858,12 @@ def choice_map_family():
     expect("filter", (m1 | m2).filter(S.at["g"]), {("g", "y"): (True, 2.0), ("g", "z"): (True, 4.0)}, A2)
     expect("filter complement", (m1 | m2).filter(~S.at["g"]), {("x",): (True, 1.0)}, A2)
     for kind, mk in (("int", lambda i: i), ("array", lambda i: jnp.array(i))):
+        # a branch without choices keeps its position (first / in the middle)
+        for order in ((None, "x", "y"), ("x", None, "y")):
+            for k in (0, 1, 2):
+                br = [C.empty() if o is None else C.kw(**{o: 5.0 + j}) for j, o in enumerate(order)]
+                want = {} if order[k] is None else {(order[k],): (True, 5.0 + k)}
+                expect(f"switch[{kind} index {k}] over {order}", C.switch(mk(k), br), want, [("x",), ("y",)])
         for k in (0, 1):
             sw = C.switch(mk(k), [C.kw(x=10.0), C.kw(x=20.0, y=30.0)])
             plain = C.kw(x=9.0)
@@ -987,6 +993,10 @@ def diff_family():
                     fail(f"Diff.{fn.__name__} does not return a full diff tree", tree=tags)
                 if Diff.static_check_no_change(r) != want:
                     fail(f"Diff.{fn.__name__} does not tag every leaf", tree=tags, got=Diff.static_check_no_change(r))
+                leaf_tags = [l.tangent for l in tu.tree_leaves(r, is_leaf=is_d) if is_d(l)]
+                if len(leaf_tags) != len(tu.tree_leaves(plain)) or not all((t is NoChange) == want for t in leaf_tags):
+                    fail(f"Diff.{fn.__name__}: not EVERY leaf carries the tag (or the leaves were regrouped)", tree=tags,
+                         got=[type(t).__name__ for t in leaf_tags])
             tg = Diff.tree_tangent(tree)
             back = Diff.tree_diff(plain, tg)
             if not (same(Diff.tree_primal(back), plain) and Diff.static_check_no_change(back) == allnc):
@@ -1436,6 +1446,22 @@ def rejuvenate_family():
         if not (close(w, want) and close(new.get_args()[0], 2.0) and close(new.get_score(), lp_new)):
             fail("Rejuvenate with changed arguments: weight / new trace are not computed under the new arguments",
                  w=w, want=want, args=new.get_args()[0], score=new.get_score(), want_score=lp_new)
+    # ... also when the changed value sits INSIDE a container argument (a tuple), next to an unchanged one
+    @gen
+    def shifted_pair(ms, s):
+        x = normal(ms[0], s) @ "x"
+        y = normal(x + ms[1], 0.5) @ "y"
+        return y
+    for k in range(3):
+        tr = shifted_pair.simulate(jrand.key(k), ((0.0, 0.0), 1.0))
+        ad = ((Diff(2.0, UnknownChange), Diff(0.0, NoChange)), Diff(1.0, NoChange))
+        new, w, _, _ = Rejuvenate(prop, lambda chm: (chm["x"],)).edit(jrand.key(60 + k), tr, ad)
+        x0, x1, y = tr.get_choices()["x"], new.get_choices()["x"], tr.get_choices()["y"]
+        lp_new = N(2.0, 1.0).log_prob(x1) + N(x1, 0.5).log_prob(y)
+        want = lp_new - tr.get_score() + N(x1 + 1.0, 0.3).log_prob(x0) - N(x0 + 1.0, 0.3).log_prob(x1)
+        if not (close(w, want) and close(new.get_args()[0][0], 2.0) and close(new.get_score(), lp_new)):
+            fail("Rejuvenate with a changed value inside a container argument: weight / new trace are not computed under the new "
+                 "arguments", w=w, want=want, args=new.get_args()[0], score=new.get_score(), want_score=lp_new)
     # the update changes a choice the proposal did not propose (a switch branch re-run because its index was proposed) and the
     # proposal's arguments are computed from that choice: q(x | x') must use the NEW trace's value
     lo = gen(lambda: normal(-2.0, 1.0) @ "v")
